@@ -18,7 +18,7 @@ from verif.sim import core
 PROPERTY = 'C12'
 ENGINE = 'history-sim'
 LEVEL = 'exploration'
-QUICK_S = 50
+QUICK_S = 55
 THOROUGH_S = 480
 CHUNK = 4
 MINIMISE_S = 25
@@ -201,6 +201,56 @@ def gen_compile_op(rng, tier):
     if rng.random() < 0.15:
         op['absent'] = [rng.choice(sorted(specs))]
     return op
+
+
+def _fixed_spec(name, **kw):
+    sp = {'name': name, 'imports': [], 'oidparent': None, 'arc': 48, 'identity': False, 'nobj': 2, 'arcs': [1, 2], 'compliance': False, 'variant': 'ok'}
+    sp.update(kw)
+    return sp
+
+
+def catalog():
+    """(state-leaving operations, probing operations) for the pairwise sweep"""
+    d = 'smiV1Relaxed'
+    leaving = [{'op': 'parse', 'dialect': d, 'bad': b} for b in sorted(hs.BAD_TEXTS)]
+    leaving += [{'op': 'parse', 'dialect': d, 'file': k, 'tail': 'comment'} for k in (0, 2, 3)]
+    for cname, mname in (('full', 'FULL-MIB'), ('fullalt', 'FULL-MIB'), ('v1', 'OLD-MIB'), ('quirky', 'QUIRK-MIB')):
+        leaving.append({'op': 'compile', 'modules': {}, 'corpus': [cname], 'requested': [mname], 'codegen': 'json', 'options': {'genTexts': True}})
+    leaving.append({'op': 'compile', 'modules': {}, 'corpus': ['full'], 'requested': ['FULL-MIB'], 'codegen': 'json', 'options': {'genTexts': True, 'keepLayout': True}})
+    leaving.append({'op': 'compile', 'modules': {}, 'corpus': ['full'], 'requested': ['FULL-MIB'], 'codegen': 'pysnmp', 'options': {}})
+    for tag, kw in (('rev', {'identity': True, 'revisions': ['202001010000Z'], 'compliance': True}), ('latefail', {'variant': 'latefail', 'compliance': True}),
+                    ('fakeidx', {'fakeidx': True}), ('badref', {'variant': 'badref'}), ('dupsym', {'variant': 'dupsym'}), ('unkparent', {'variant': 'unkparent'}),
+                    ('dupobj', {'dupobj': True, 'compliance': True}), ('v1', {'smiv1': True})):
+        leaving.append({'op': 'compile', 'modules': {'AAA-MIB': _fixed_spec('AAA-MIB', **kw)}, 'requested': ['AAA-MIB'], 'codegen': 'json', 'options': {'ignoreErrors': True}})
+    leaving.append({'op': 'compile', 'modules': {'AAA-MIB': _fixed_spec('AAA-MIB')}, 'absent': ['AAA-MIB'], 'requested': ['AAA-MIB'], 'codegen': 'json', 'options': {}})
+    leaving.append({'op': 'read', 'name': 'FOO-MIB', 'omit': [], 'ropts': {}})
+    probing = [{'op': 'parse', 'dialect': d, 'file': k, 'tail': 'first-line'} for k in (0, 2, 3)]
+    probing += [{'op': 'parse', 'dialect': d, 'file': 1}, {'op': 'parse', 'dialect': d, 'bad': 'grammar-late'}, {'op': 'parse', 'dialect': d, 'bad': 'lex-initial'},
+                {'op': 'parse', 'dialect': d, 'bad': 'multiline-string-then-error'}]
+    for cname, mname in (('full', 'FULL-MIB'), ('fullalt', 'FULL-MIB'), ('small', 'AAA-MIB'), ('v1', 'OLD-MIB')):
+        probing.append({'op': 'compile', 'modules': {}, 'corpus': [cname], 'requested': [mname], 'codegen': 'json', 'options': {'genTexts': True}})
+    probing.append({'op': 'compile', 'modules': {'BBB-MIB': _fixed_spec('BBB-MIB', arc=10)}, 'requested': ['BBB-MIB'], 'codegen': 'json', 'options': {}})
+    probing.append({'op': 'compile', 'modules': {'BBB-MIB': _fixed_spec('BBB-MIB', arc=10, fakeidx=True)}, 'requested': ['BBB-MIB'], 'codegen': 'json', 'options': {'ignoreErrors': True}})
+    probing.append({'op': 'compile', 'modules': {'AAA-MIB': _fixed_spec('AAA-MIB', arcs=[5], nobj=1)}, 'requested': ['AAA-MIB'], 'codegen': 'json', 'options': {}})
+    probing.append({'op': 'read', 'name': 'foo-mib', 'omit': [], 'ropts': {}})
+    return leaving, probing
+
+
+SWEEP_SET = {'quick': 'every pair (state-leaving operation, probing operation) of the catalog, on long-lived objects vs fresh objects (no child interpreters)',
+             'thorough': 'same, plus every triple ending in a repeat of the first operation'}
+
+
+def sweep(tier):
+    import copy as _c
+    leaving, probing = catalog()
+    out = []
+    for a in leaving:
+        for b in probing:
+            ops = [_c.deepcopy(a), _c.deepcopy(b)]
+            if tier == 'thorough':
+                ops.append({'op': 'repeat', 'of': 0})
+            out.append({'ops': ops, 'child_hash_seeds': [], 'pair': True})
+    return out
 
 
 def generate(rng, tier):
